@@ -159,7 +159,7 @@ theorem closeness_from_source :
 theorem meta_preserved :
     Gen.regionsGuard = "neighborhood not in (4, 8)" ∧
     Gen.regionsKernelData = "raster.data" ∧
-    Gen.regionsWiden = ["data.dtype.kind in 'iu' and np.iinfo(data.dtype).max < data.size -> data = data.astype(np.int64)"] ∧
+    Gen.regionsWiden = ["data.dtype.kind in 'iu' and data.dtype.itemsize < 8 -> data = data.astype(np.int64)"] ∧
     Gen.regionsKernelArgs = "n=neighborhood" ∧
     Gen.regionsReturn = [("data", "out"), ("attrs", "raster.attrs"), ("coords", "raster.coords"),
                          ("dims", "raster.dims"), ("name", "name")] := by
